@@ -292,7 +292,11 @@ def generate(run_seed, tier):
         # the same file is first loaded with replacement values for some
         # constructor keywords (an option of the loader); a plain load of
         # the file afterwards owes the stored values
-        'replace_first': st('decoy').random() < 0.3}
+        'replace_first': st('decoy').random() < 0.3,
+        # a damaged copy of the file (one listed gas names a profile class
+        # this installation does not have) is offered to the loader first
+        'damaged_first': st('damage').random() < 0.35,
+        'damage_pick': st('damage').randrange(8)}
     o = st('ops')
     ops = [['open', 'w']]
     if cfg['part'] == 'solution':
@@ -1233,6 +1237,66 @@ def _ctor_values(obj):
     return {}
 
 
+def check_damaged_copy(viol, out, fname, cfg):
+    """Fault: one gas entry of a copy of the model file names a profile class
+    that does not exist.  The loader may refuse the file; if it hands a model
+    back, every gas the file lists must be in it (never a model that silently
+    lacks a component the file describes)."""
+    import shutil
+    import h5py
+    from taurex.util.hdf5 import taurex_hdf5_to_model
+    dfn = fname + '.damaged.h5'
+    shutil.copyfile(fname, dfn)
+    try:
+        listed, victim = [], None
+        with h5py.File(dfn, 'r+') as f:
+            found = []
+            f.visititems(lambda n, o_: found.append(n)
+                         if n.split('/')[-1] == 'Chemistry' and
+                         isinstance(o_, h5py.Group) and 'active_gases' in o_
+                         else None)
+            if not found:
+                out.bump('probes', 'no_chemistry_group_to_damage')
+                return
+            g = f[found[0]]
+
+            def names(ds):
+                return [x.decode() if isinstance(x, bytes) else str(x)
+                        for x in np.ravel(g[ds][()])] if ds in g else []
+            listed = names('active_gases') + names('inactive_gases')
+            cands = [m_ for m_ in listed if m_ in g and
+                     isinstance(g[m_], h5py.Group) and 'gas_type' in g[m_]]
+            if not cands:
+                out.bump('probes', 'no_gas_entry_to_damage')
+                return
+            victim = cands[cfg.get('damage_pick', 0) % len(cands)]
+            del g[victim]['gas_type']
+            g[victim]['gas_type'] = 'NoSuchGasProfileClass'
+        out.bump('faults', 'model_file_with_unknown_gas_class')
+        try:
+            md = taurex_hdf5_to_model(dfn)
+        except Exception:
+            out.bump('probes', 'damaged_model_file_refused')
+            return
+        try:
+            have = list(md.chemistry.activeGases) + \
+                list(md.chemistry.inactiveGases)
+        except Exception:
+            out.bump('probes', 'damaged_model_not_inspectable')
+            return
+        missing = [m_ for m_ in listed if m_ not in have]
+        if missing:
+            viol('reload', 'damaged-file-accepted',
+                 'a file whose entry for %s names an unknown profile class '
+                 'was loaded without error into a model lacking %s (file '
+                 'lists %s, model has %s)' % (victim, missing, listed, have))
+    finally:
+        try:
+            os.remove(dfn)
+        except OSError:
+            pass
+
+
 def check_reload(viol, out, fname, model, cfg):
     from taurex.util.hdf5 import taurex_hdf5_to_model
     if cfg.get('decoy_first'):
@@ -1270,6 +1334,8 @@ def check_reload(viol, out, fname, model, cfg):
             out.bump('probes', 'loaded_with_replacements_first')
         except Exception:
             out.bump('probes', 'replacement_load_failed')
+    if cfg.get('damaged_first'):
+        check_damaged_copy(viol, out, fname, cfg)
     try:
         m2 = taurex_hdf5_to_model(fname)
         m2.build()
